@@ -166,7 +166,13 @@ def unjudged_loops(fi: FuncInfo, data: str
     for loop in walk_local(fi.node):
         if not isinstance(loop, ast.For):
             continue
-        it = src(loop.iter)
+        itn = loop.iter
+        # an ordering / snapshot wrapper enumerates the same children
+        while isinstance(itn, ast.Call) and isinstance(itn.func, ast.Name) \
+                and itn.func.id in ("sorted", "list", "reversed", "tuple") \
+                and itn.args:
+            itn = itn.args[0]
+        it = src(itn)
         if it not in ("enumerate({})".format(data), "{}.items()".format(data),
                       data, "{}.non_merged_items()".format(data)):
             continue
@@ -250,7 +256,12 @@ def exhausting_loops(fi: FuncInfo, data: str
     for loop in walk_local(fi.node):
         if not isinstance(loop, ast.For):
             continue
-        it = src(loop.iter)
+        itn = loop.iter
+        while isinstance(itn, ast.Call) and isinstance(itn.func, ast.Name) \
+                and itn.func.id in ("sorted", "list", "reversed", "tuple") \
+                and itn.args:
+            itn = itn.args[0]
+        it = src(itn)
         if it not in ("enumerate({})".format(data), "{}.items()".format(data),
                       data, "{}.non_merged_items()".format(data)) and \
                 not it.startswith("range("):
